@@ -6,3 +6,4 @@ pub fn check(c: bool) { assert!(c) }
 pub struct Handle(pub usize);
 pub fn spawn<F: FnOnce() -> bool + 'static>(_f: F) -> Handle { Handle(0) }
 pub fn join(_h: Handle) -> bool { false }
+pub fn any_u64() -> u64 { 0 }
